@@ -221,7 +221,16 @@ def simple_expect(docs, name):
                 if k.startswith("@"):
                     raise Unsupported("list key on a map")
                 if i > 0 and G.has_directive({x: y for x, y in node.items() if x in ("__include", "__patch")}):
-                    raise Unsupported("blocking ancestor")
+                    # a node on the way that has an include / patch of its own: the reference goes through its COMPILED value
+                    if depth[0] > 6:
+                        raise Unsupported("reference chain too deep (or cyclic)")
+                    depth[0] += 1
+                    try:
+                        node = ev(doc, node)
+                    finally:
+                        depth[0] -= 1
+                    if not isinstance(node, dict):
+                        raise Unsupported("path through non-map")
                 if k not in node or node[k] is None:
                     if opt:
                         return None
@@ -391,6 +400,79 @@ def gen_listref(rng, idx):
         docs["b.custom"] = {"patch": pmap(1)}
     ops = [("compile", x) for x in rng.sample(["a", "b"], 2)]
     return {"id": "lr%d" % idx, "docs": docs, "ops": ops, "mode": "simple", "risk": 0, "features": sorted(feats)}
+
+
+def gen_prefixsib(rng, idx):
+    """directed family inside the fragment: sibling keys one of which is a STRING prefix of the other (k / k_x / k1 / kx,
+    list / list2) — paths that are prefixes as text but not ancestors — with references from the longer to the shorter
+    while the shorter still has a directive of its own pending (an earlier key pulls the longer one in first)"""
+    g = G.Gen(rng, "acyclic")
+    g.risk = 0
+
+    def pmap(n):
+        out = {}
+        for k in rng.sample(G.KEYS, n):
+            t = g.data(1, "s")
+            out[k] = t if t != "" else "x"
+        return out
+    short = rng.choice(["k", "kb", "list", "m", "zz"])
+    long_ = short + rng.choice(["_x", "1", "x", "_extra", "0", "b"])
+    a = {"base": pmap(rng.randint(2, 3))}
+    a[short] = {"__include": rng.choice(["/base", "base", "c:/m"])}      # (b refers to a: a must not refer to b)
+    if rng.random() < 0.6:
+        a[short][rng.choice(G.KEYS)] = "x"
+    if rng.random() < 0.4:
+        a[short]["__patch"] = pmap(1)
+    a[long_] = {"__include": rng.choice(["/", "", ":/", "a:/"]) + short}
+    if rng.random() < 0.4:
+        a[long_]["__patch"] = pmap(1)
+    feats = {"prefix-siblings"}
+    if rng.random() < 0.75:
+        # a key parsed before both pulls the longer one in first
+        first = rng.choice(["a0", "b0", "aa"])
+        a[first] = {"__include": "/" + long_}
+        feats.add("prefix-siblings:pulled-first")
+    if rng.random() < 0.3:
+        a["zzz"] = {"__include": "/" + short, "__patch": pmap(1)}
+    b = {"m": pmap(2), "q": {"__include": "a:/" + rng.choice([short, long_])}}
+    docs = {"a": a, "b": b, "c": {"m": pmap(2)}}
+    ops = [("compile", x) for x in rng.sample(["a", "b"], 2)]
+    return {"id": "ps%d" % idx, "docs": docs, "ops": ops, "mode": "simple", "risk": 0, "features": sorted(feats)}
+
+
+def gen_viamid(rng, idx):
+    """directed family inside the fragment: a reference whose path goes THROUGH a node that has an include / patch of its own
+    and a further directive below it, from keys parsed before and after that node and from another document — the reference
+    must see the node's compiled value (its own include applied first)"""
+    g = G.Gen(rng, "acyclic")
+    g.risk = 0
+
+    def pmap(n):
+        out = {}
+        for k in rng.sample(G.KEYS, n):
+            t = g.data(1, "s")
+            out[k] = t if t != "" else "x"
+        return out
+    base = {"x": pmap(2), "y": rng.choice(G.WORDS) or "w"}
+    other = pmap(2)
+    mid = {"__include": rng.choice(["/base", "base", "c:/m"]), "sub": {"__include": "/other"}}
+    if rng.random() < 0.5:
+        mid["__patch"] = {"y": "patched"}
+    if rng.random() < 0.4:
+        mid["x"] = {"extra": "1"}          # merged over the included x
+    a = {"base": base, "other": other, "mid": mid}
+    feats = {"via-mid"}
+    for t in range(rng.randint(1, 2)):
+        fwd = rng.random() < 0.6
+        feats.add("via-mid:forward" if fwd else "via-mid:backward")
+        a[("a%d" if fwd else "z%d") % t] = {"__include": rng.choice(["/mid/x", "mid/x", "/mid/sub", "/mid/y", ":/mid/x"])}
+    c = {"m": {"x": pmap(2), "y": "cy"}}
+    b = {"q": {"__include": "a:/mid/" + rng.choice(["x", "sub", "y"])}, "m": pmap(1)}
+    docs = {"a": a, "b": b, "c": c}
+    if rng.random() < 0.3:
+        docs["a.custom"] = {"patch": {"zz": "c"}}
+    ops = [("compile", x) for x in rng.sample(["a", "b"], 2)]
+    return {"id": "vm%d" % idx, "docs": docs, "ops": ops, "mode": "simple", "risk": 0, "features": sorted(feats)}
 
 
 def gen_rootinc(rng, idx):
@@ -646,6 +728,7 @@ def run(c):
     cases += [gen_simple(c.rng, i) for i in range(n_si)]
     n_dir = 150 if quick else 3000
     cases += [gen_listref(c.rng, i) for i in range(n_dir)] + [gen_rootinc(c.rng, i) for i in range(n_dir)]
+    cases += [gen_prefixsib(c.rng, i) for i in range(n_dir)] + [gen_viamid(c.rng, i) for i in range(n_dir)]
     cases += [G.gen_case(c.rng, i, "acyclic") for i in range(n_ac)]
     arb = [G.gen_case(c.rng, i, "arbitrary") for i in range(n_ar)]
     stats = {"compiles": 0, "clean_equal": 0, "failed_equal": 0, "best_effort": 0, "o_simple": 0, "o_plain": 0}
@@ -735,7 +818,7 @@ def run(c):
                                              "the C++ dependency-graph algorithm equals the reference: differential check only (partial)"])
     cov.update({
         "evaluations": stats["compiles"], "distinct_nontrivial": len(nontrivial),
-        "rule": ("document sets: corpus (%d; repo fixtures re-translated from %s/data/test on this run + corpus/C14) + %d simple-fragment + 2x%d directed (list-element references in every index spelling, forward and backward; root include with custom patch) + %d "
+        "rule": ("document sets: corpus (%d; repo fixtures re-translated from %s/data/test on this run + corpus/C14) + %d simple-fragment + 4x%d directed (list-element references in every index spelling, forward and backward; root include with custom patch; sibling keys that are string prefixes of one another; references through a node with directives of its own) + %d "
                  "acyclic-grammar + %d arbitrary (cyclic) sets; every document of a set is compiled by the real ConfigBuilder (in-memory "
                  "tree + re-loaded staging YAML) and by the Lean reference; non-trivial = a set containing directives with at least one "
                  "compile on which the reference run is clean+successful and equal, distinct by set text" % (n_corpus, vlib.REPO, n_si, n_dir, n_ac, n_ar)),
